@@ -31,6 +31,12 @@ extern "C"
 #endif
 int ext_fn(void);
 #endif
+#ifdef USE_EXT2
+#ifdef __cplusplus
+extern "C"
+#endif
+int ext2_fn(void);
+#endif
 #define STR2(x) #x
 #define STR(x) STR2(x)
 int main(void) {
@@ -73,6 +79,9 @@ int main(void) {
 #endif
 #ifdef USE_EXT
   printf("ext=%d\n", ext_fn());
+#endif
+#ifdef USE_EXT2
+  printf("ext2=%d\n", ext2_fn());
 #endif
   printf("stdlib=%d\n", abs(-1));
   return 0;
@@ -153,7 +162,17 @@ def run_case(case):
             if s['o'] == 'include' and s['v'] == 'cpath':
                 # (only while configuring: the build runs without CPATH)
                 env_extra['CPATH'] = os.path.join(src, 'incdir')
-            if s['o'] == 'envdef':
+            if s['o'] == 'envlib':
+                os.makedirs(os.path.join(src, 'extlib3'), exist_ok=True)
+                W('extlib3/ext2.c', 'int ext2_fn(void) { return 5; }\n')
+                subprocess.run(['gcc', '-c', 'ext2.c', '-o', 'ext2.o'],
+                               cwd=os.path.join(src, 'extlib3'), check=True)
+                subprocess.run(['ar', 'cr', 'libext2.a', 'ext2.o'],
+                               cwd=os.path.join(src, 'extlib3'), check=True)
+                env_extra['LDLIBS'] = '-lext2'
+                env_extra['LDFLAGS'] = '-L' + os.path.join(src, 'extlib3')
+                comp['target'].append("'-DUSE_EXT2'")
+            elif s['o'] == 'envdef':
                 env_extra['CFLAGS' if lang == 'c' else 'CXXFLAGS'] = \
                     '-DENVDEF=1'
             elif s['o'] == 'pch':
@@ -204,7 +223,7 @@ def run_case(case):
                  defval='', envdef=False, tcdef=False, std=0, inc=False,
                  optimize=False, optimize_size=False, lto=False, pic=False,
                  reentrant=False, asan=False, debug=False, dynamic=True,
-                 stdlib=False,
+                 stdlib=False, ext2=False,
                  ext=False, pch=False, warn_exit=0, warned=False, note='')
         rc, out = run(['/venv/bin/bfg9000', 'configure', bld,
                        '--no-resolve-packages', '--backend=make'] + args,
@@ -239,6 +258,8 @@ def run_case(case):
                     f['std'] = int(v)
                 elif k == 'ext':
                     f['ext'] = v == '7'
+                elif k == 'ext2':
+                    f['ext2'] = v == '5'
                 elif k == 'stdlib':
                     f['stdlib'] = v == '1'
                 elif k in f:
@@ -285,7 +306,13 @@ def main(argv):
             upairs.append(c)
     rnd = random.Random(ck.seed)
     rnd.shuffle(upairs)
-    todo = singles + upairs[:(60 if ck.quick else 2500)]
+    # directed: a library requested through the environment next to every
+    # link-side option (libraries of the target's own, global ones, static)
+    head = upairs[:(60 if ck.quick else 2500)]
+    directed = [c for c in upairs[len(head):]
+                if {s['o'] for s in c['slots']} & {'envlib'} and
+                {s['where'] for s in c['slots']} & {'link', 'globallink'}]
+    todo = singles + head + directed
     ck.note('space', {'singles': len(singles), 'unordered_pairs': len(upairs),
                       'executed': len(todo)})
     res = pmap(run_case, todo, jobs=14)
